@@ -42,7 +42,11 @@ def gen_scenarios(tier, seed):
         for _ in range(rnd.choice([1, 1, 2, 2, 3, 4])):
             n = rnd.randint(0, max_n)
             panics = [i for i in range(n + 1) if rnd.random() < 0.25]
-            hist.append({"n": n, "panics": panics})
+            bc = {"n": n, "panics": panics}
+            if 0 in panics and rnd.random() < 0.5:
+                # the caller's own call panics with a payload whose destructor panics too
+                bc["bomb0"] = True
+            hist.append(bc)
         scs.append({"kind": "pool", "id": f"r{k}", "history": hist,
                     "use": rnd.choice(["par_extend", "par_extend", "broadcast"]),
                     "reuse_vec": rnd.random() < 0.5,
@@ -52,6 +56,8 @@ def gen_scenarios(tier, seed):
     # Bounded-exhaustive schedule enumeration on the implementation.
     dfs = [([(1, [])], 3, 1), ([(1, [1])], 2, 0), ([(2, [])], 2, 0),
            ([(1, []), (1, [])], 2, 1)]
+    scs.append({"kind": "pool", "id": "dfs-bomb", "history": [{"n": 1, "panics": [0], "bomb0": True}, {"n": 1, "panics": []}],
+                "spurious": 0, "schedule": {"source": "dfs", "bound": 2, "max_runs": 1500}})
     if tier == "thorough":
         dfs += [([(2, [])], 3, 1), ([(2, [1]), (1, [])], 2, 1),
                 ([(1, []), (2, []), (0, [])], 2, 0), ([(3, [])], 2, 0),
